@@ -6,6 +6,7 @@ import (
 	"testing"
 
 	"verifsim/kit"
+	"verifsim/fwsim"
 	"verifsim/tablesim"
 )
 
@@ -21,6 +22,8 @@ func TestSim(t *testing.T) {
 		a.Prop, a.Engine = kit.PeekScenario(a.File)
 	}
 	switch a.Engine {
+	case "fwsim":
+		kit.Drive(t, fwsim.Engine{}, a)
 	case "tablesim":
 		kit.Drive(t, tablesim.Engine{}, a)
 	default:
